@@ -466,6 +466,7 @@ func randomCase(r *rng.R) sexp.Node {
 
 func main() {
 	hx.Main(func(h *hx.H) {
+		leafFamily(h)
 		exhaustiveFamily(h)
 		n := 3000
 		if h.Thorough() {
